@@ -24,10 +24,10 @@ func (d *HAMTDirectory) VerifState() string {
 		d.sizeChange, d.totalLinks, d.maxLinks, d.maxHAMTFanout, d.hamtShardingSize, d.mode, d.mtime.Unix(), d.mtime.Nanosecond(), est, d.shard.VerifWidth(), d.shard.VerifDump())
 }
 
-func (d *HAMTDirectory) VerifTreeDump() string { return d.shard.VerifDump() }
-func (d *HAMTDirectory) VerifTotalLinks() int  { return d.totalLinks }
-func (d *HAMTDirectory) VerifSizeChange() int  { return d.sizeChange }
-func (d *BasicDirectory) VerifTotalLinks() int { return d.totalLinks }
+func (d *HAMTDirectory) VerifTreeDump() string    { return d.shard.VerifDump() }
+func (d *HAMTDirectory) VerifTotalLinks() int     { return d.totalLinks }
+func (d *HAMTDirectory) VerifSizeChange() int     { return d.sizeChange }
+func (d *BasicDirectory) VerifTotalLinks() int    { return d.totalLinks }
 func (d *BasicDirectory) VerifEstimatedSize() int { return d.estimatedSize }
-func (d *BasicDirectory) VerifThreshold() int  { return d.hamtShardingSize }
-func (d *HAMTDirectory) VerifThreshold() int   { return d.hamtShardingSize }
+func (d *BasicDirectory) VerifThreshold() int     { return d.hamtShardingSize }
+func (d *HAMTDirectory) VerifThreshold() int      { return d.hamtShardingSize }
